@@ -13,10 +13,10 @@ def isOutcome : Ev → Bool
   | .success | .error | .failure | .skip => true
   | _ => false
 
-/-- exactly one outcome between startTest and stopTest; `run()` returned -/
+/-- exactly one outcome between startTest and stopTest -/
 def cBracket (_ : Prog) (t : Trace) : Bool :=
   match t.events with
-  | [.startTest, x, .stopTest] => isOutcome x && !t.raised
+  | [.startTest, x, .stopTest] => isOutcome x
   | _ => false
 
 def outcome (t : Trace) : Option Ev :=
@@ -43,14 +43,28 @@ def number : Nat → List Stage → List (Nat × Stage)
   | _, [] => []
   | i, c :: cs => (i, c) :: number (i + 1) cs
 
+/-- the cleanups in the order in which they run: pop the top of the stack; the cleanups it registers (numbered
+from `next`) go on top.  `fuel` only has to exceed the number of stages on the stack, counted transitively. -/
+def expand : Nat → Nat → List (Nat × Stage) → List (SName × Stage)
+  | 0, _, _ => []
+  | _ + 1, _, [] => []
+  | n + 1, next, (i, c) :: rest =>
+    (SName.cleanup i, c) :: expand n (next + c.cleanups.length) ((number next c.cleanups).reverse ++ rest)
+
 /-- the stages the chain goes through when nothing stops it: setUp; the test and tearDown iff setUp went
-well; then every cleanup registered by a stage that ran, last registered first -/
+well; then every cleanup registered by a stage that ran, last registered first (cleanups registered by a
+cleanup run right after it) -/
 def path (p : Prog) : List (SName × Stage) :=
-  let ok := behOk p.setUp.stage.beh
-  let registered := p.setUp.cleanups ++ (if ok then p.body.cleanups ++ p.tearDown.cleanups else [])
-  (SName.setUp, p.setUp.stage) ::
-    ((if ok then [(SName.body, p.body.stage), (SName.tearDown, p.tearDown.stage)] else []) ++
-     (number 0 registered).reverse.map (fun ic => (SName.cleanup ic.1, ic.2)))
+  let s1 := (number 0 p.setUp.cleanups).reverse
+  let n1 := p.setUp.cleanups.length
+  (SName.setUp, p.setUp) ::
+    (if behOk p.setUp.beh then
+      let s2 := (number n1 p.body.cleanups).reverse ++ s1
+      let n2 := n1 + p.body.cleanups.length
+      let s3 := (number n2 p.tearDown.cleanups).reverse ++ s2
+      let n3 := n2 + p.tearDown.cleanups.length
+      (SName.body, p.body) :: (SName.tearDown, p.tearDown) :: expand (stackSize s3 + 1) n3 s3
+     else expand (stackSize s1 + 1) n1 s1)
 
 /-- the log is a prefix of the path and every stage starts no earlier than its predecessor was over
 (`earliest = none`: the predecessor never fires, nothing may follow) -/
@@ -75,32 +89,49 @@ def overAt : Option Nat → List (SName × Stage) → List (SName × Nat × Nat)
   | e, _ :: _, [] => e
   | _, (_, st) :: path, (_, t, _) :: log => overAt ((delayOf st.beh).map (t + ·)) path log
 
-/-- the last Deferred fired strictly before the timeout and not after a stop request — or no stage returned a
-Deferred at all (then the chain is over before the reactor starts) -/
-def lastInTime (p : Prog) (t : Trace) : Bool :=
+/-- every stage was started by the running reactor (not by the shake-out iterations of `Spinner._clean`, which run
+after the result of the spin has been determined) -/
+def allLive (t : Trace) : Bool := t.live.length == t.stages.length && t.live.all id
+
+/-- the last Deferred fired strictly before the timeout — or no stage returned a Deferred at all (then the chain
+is over before the reactor starts) -/
+def lastBeforeTimeout (p : Prog) (t : Trace) : Bool :=
   (ranStages p t).all (fun st => isSync st.beh) ||
   match overAt (some 0) (path p) t.stages with
-  | some over => decide (over < p.timeout) && p.stops.all (fun s => decide (over ≤ s))
+  | some over => decide (over < p.timeout)
   | none => false
 
-def inTime (p : Prog) (t : Trace) : Bool := complete p t && lastInTime p t
+/-- every stage of the path ran, under the running reactor, the last one was over before the timeout, and the
+run was not interrupted -/
+def inTime (p : Prog) (t : Trace) : Bool :=
+  complete p t && allLive t && lastBeforeTimeout p t && !t.stopRequested
 
 def sidesRan (p : Prog) (t : Trace) : List Side := ((ranStages p t).map (·.sides)).flatten
 
 def loggedLeft (sides : List Side) : Nat :=
   sides.foldl (fun n s => match s with | .logerr => n + 1 | .flush => 0 | _ => n) 0
 
-/-- success ⇔ every stage completed cleanly within the timeout ∧ no logged error left unflushed ∧ no failed
-Deferred dropped ∧ nothing left scheduled (∧ no failed expectation) -/
+/-- success ⇔ every stage completed cleanly within the timeout, uninterrupted ∧ no logged error left unflushed ∧
+no failed Deferred dropped ∧ nothing left scheduled (∧ no failed expectation) -/
 def cSuccessIff (p : Prog) (t : Trace) : Bool :=
   (outcome t == some .success) ==
     (inTime p t && (ranStages p t).all (fun st => behOk st.beh) && !(sidesRan p t).contains .expect
       && loggedLeft (sidesRan p t) == 0 && !(sidesRan p t).contains .dropfailed && t.leftover == 0)
 
-/-- not in time ⇒ error; the result is asked to stop exactly when the run was ended by an interrupt -/
+/-- the chain was not over when a stop request came, before the timeout: the log is incomplete, or its last
+stage was over only later -/
+def interruptedFor (p : Prog) (t : Trace) (s : Nat) : Bool :=
+  decide (s < p.timeout) &&
+  (!complete p t || match overAt (some 0) (path p) t.stages with
+    | some over => decide (s < over)
+    | none => true)
+
+/-- not in time ⇒ error; an interrupt asks the result to stop, and nothing else does (at the very instant at
+which the chain is over the reactor's call order decides - left to the correspondence) -/
 def cTimeoutInterrupt (p : Prog) (t : Trace) : Bool :=
   (inTime p t || outcome t == some .error) &&
-  (t.stopRequested == (!inTime p t && p.stops.any (fun s => decide (s < p.timeout))))
+  (!t.stopRequested || p.stops.any (fun s => decide (s < p.timeout))) &&
+  (!p.stops.any (interruptedFor p t) || t.stopRequested)
 
 def duringCount (p : Prog) : Nat := (if p.suppress then 0 else p.nObs) + (if p.store then 1 else 0) + 1
 
@@ -109,9 +140,24 @@ runs the observers are: (unless suppressed) those, (if stored) the capturing one
 def cCleanAfter (p : Prog) (t : Trace) : Bool :=
   t.pending == 0 && t.obsRestored && t.stages.all (fun s => s.2.2 == duringCount p)
 
+def hasKI : Beh → Bool
+  | .raise .ki | .failD _ .ki => true
+  | _ => false
+
+def isMain : SName → Bool
+  | .cleanup _ => false
+  | _ => true
+
+/-- `run()` re-raises only an exception no handler claims, after having reported an error; it does so whenever
+setUp, the test method or tearDown raised one; and only if some stage that ran raised / failed with one -/
+def cUnclaimed (p : Prog) (t : Trace) : Bool :=
+  (!t.raised || outcome t == some .error) &&
+  (!(((path p).take t.stages.length).any fun x => isMain x.1 && x.2.beh == Beh.raise .ki) || t.raised) &&
+  (!t.raised || (ranStages p t).any fun st => hasKI st.beh)
+
 def clauses : List (String × (Prog → Trace → Bool)) :=
   [("bracket", cBracket), ("sequential", cSequential), ("success-iff", cSuccessIff),
-   ("timeout-interrupt", cTimeoutInterrupt), ("clean-after", cCleanAfter)]
+   ("timeout-interrupt", cTimeoutInterrupt), ("clean-after", cCleanAfter), ("unclaimed", cUnclaimed)]
 
 def holds (p : Prog) (t : Trace) : Bool := clauses.all fun c => c.2 p t
 
